@@ -96,7 +96,53 @@ def hairs(kind, pos, hair, ext):
     return out
 
 
+def run_exact(case):
+    """continuous worlds whose coordinates no float can hold: thirds (fractions.Fraction) and integers beyond 2**53 a few thousand
+    apart. Positions, query points and leeways are exact numbers (or left to the defaults), so the answer is the exact geometric
+    filter: agents differ from every box face by at least a third / by 4096, far more than any rounding."""
+    thirds = case["exact"] == "thirds"
+    model = Model()
+    env = SpaceWorld(model, 12, 12, 0) if thirds else SpaceWorld(model, 2 ** 62, 2 ** 62, 0)
+
+    def num(k):
+        return Fraction(int(k) % 34, 3) if thirds else 2 ** 53 + 1 + 4096 * (int(k) % 34)
+    agents = []
+    for i, (kx, ky) in enumerate(case["slots"][:12]):
+        a = Agent(f"a{i}", model)
+        env.add_agent(a, num(kx), num(ky))
+        agents.append((a, num(kx), num(ky)))
+    step = Fraction(1, 3) if thirds else 4096
+    labels = {"exact-thirds" if thirds else "exact-integers-beyond-2**53"}
+    hit = False
+    for qi, q in enumerate(case["queries"][:12]):
+        qx, qy = num(q["x"]), num(q["y"])
+        lw = q.get("leeway")                       # None: left to the default; otherwise a whole number of steps
+        xl = q.get("x_leeway")
+        kw = {}
+        if lw is not None:
+            kw["leeway"] = int(lw) * step
+        if xl is not None:
+            kw["x_leeway"] = int(xl) * step
+        L = kw.get("leeway", 0)
+        exp = [a.id for a, ax, ay in agents if abs(ax - qx) <= max(L, kw.get("x_leeway", 0)) and abs(ay - qy) <= L]
+        try:
+            if q.get("by_kw") or "x_leeway" in kw:
+                got = env.get_agents_at(qx, qy, **kw)
+            else:
+                got = env.get_agents_at(qx, qy, 0, *([kw["leeway"]] if "leeway" in kw else []))
+        except Exception as e:
+            raise Violation("query-raised", f"exact world ({case['exact']}), query {qi} at {(qx, qy)} {kw}: {type(e).__name__}: {e}")
+        ids = [getattr(g, "id", g) for g in got]
+        if ids != exp:
+            raise Violation("missing-agent" if set(exp) - set(ids) else "extra-agent",
+                            f"exact world ({case['exact']}): agents {[(a.id, str(ax), str(ay)) for a, ax, ay in agents]}; query point {(str(qx), str(qy))} {({k: str(v) for k, v in kw.items()})}: got {ids}, expected {exp}")
+        hit = hit or bool(exp)
+    return {"nontrivial": hit, "labels": sorted(labels)}
+
+
 def run_case(case):
+    if case.get("exact"):
+        return run_exact(case)
     model, env, ext, wrap = build(case)
     kind = case["kind"]
     if case.get("done") == 0:       # the model was marked complete before anybody was placed / after everybody was placed
@@ -417,7 +463,12 @@ def strategy(tier):
             while len(agents) < target:
                 agents.append({"pos": [agent_coord(ax) for ax in range(3)]})
         return {"kind": kind, "ext": ext, "wrap": wrap, "agents": agents, "moves": moves, "script": script}
-    return with_done(case())
+    slot = st.tuples(st.integers(0, 5), st.integers(0, 5))
+    exact = st.fixed_dictionaries({"exact": st.sampled_from(["thirds", "huge"]), "slots": st.lists(slot, min_size=1, max_size=8),
+                                   "queries": st.lists(st.fixed_dictionaries({"x": st.integers(0, 5), "y": st.integers(0, 5), "by_kw": st.booleans(),
+                                                                              "leeway": st.sampled_from([None, None, 0, 1, 2]),
+                                                                              "x_leeway": st.sampled_from([None, None, 0, 1, 3])}), min_size=1, max_size=8)})
+    return wone_of(*([with_done(case())] * 11 + [exact]))
 
 
 EXHAUSTIVE_DOMAIN = ("line worlds of width 1..4 (wrap on/off) and continuous 1-D worlds of extent 1 (eighths): every placement of one "
